@@ -83,8 +83,17 @@ func (g *gcmAsm) Seal(dst, nonce, plaintext, data []byte) []byte {
 		panic("cipher: invalid buffer overlap")
 	}
 
+	encOut := out
+	if g.tagSize < gcmTagSize && len(plaintext)%BlockSize != 0 {
+		// The assembly stores a whole block for the partial final block, assuming that a full-size tag
+		// follows it in dst. With a truncated tag that would write past the end: encrypt into a scratch buffer.
+		encOut = make([]byte, len(plaintext)+gcmTagSize)
+	}
 	if len(plaintext) > 0 {
-		gcmSm4Enc(&g.bytesProductTable, out, plaintext, &counter, &tagOut, g.cipher.enc[:])
+		gcmSm4Enc(&g.bytesProductTable, encOut[:len(plaintext)], plaintext, &counter, &tagOut, g.cipher.enc[:])
+		if &encOut[0] != &out[0] {
+			copy(out, encOut[:len(plaintext)])
+		}
 	}
 	gcmSm4Finish(&g.bytesProductTable, &tagMask, &tagOut, uint64(len(plaintext)), uint64(len(data)))
 	copy(out[len(plaintext):], tagOut[:])
@@ -135,6 +144,13 @@ func (g *gcmAsm) Open(dst, nonce, ciphertext, data []byte) ([]byte, error) {
 	ret, out := alias.SliceForAppend(dst, len(ciphertext))
 	if alias.InexactOverlap(out, ciphertext) {
 		panic("cipher: invalid buffer overlap")
+	}
+	if g.tagSize < gcmTagSize && len(ciphertext)%BlockSize != 0 {
+		// The assembly loads a whole block for the partial final block, assuming that a full-size tag
+		// follows it in src. With a truncated tag that would read past the end: decrypt from a padded copy.
+		tmp := make([]byte, len(ciphertext)+gcmTagSize)
+		copy(tmp, ciphertext)
+		ciphertext = tmp[:len(ciphertext)]
 	}
 	if len(ciphertext) > 0 {
 		gcmSm4Dec(&g.bytesProductTable, out, ciphertext, &counter, &expectedTag, g.cipher.enc[:])
